@@ -985,4 +985,91 @@ example : jsMethodValue bodyFst [.int 0, .tup [.ptr 2], .tup [.tup [.int 3]]] [.
 
 end MethodValues
 
+/-! ## 7. `$interfaceIsEqual`: reflexivity, and independence of object identity -/
+
+section IfaceRefl
+
+mutual
+/-- the dynamic value contains no NaN, and every interface-typed component (at any depth) holds a value of a comparable
+    dynamic type -/
+def reflOK (s : St) : Val → Nat → Bool
+  | .tuple vs, t =>
+    if (s.get t).kind = kArray then reflArr s vs (s.get t).elem else reflStruct s vs ((s.get t).fields.map (·.typ))
+  | .iface ta va, _ => comparableM s (s.size + 1) ta && reflOK s va ta
+  | .flt x, _ => x.isSome
+  | .cplx a b, _ => a.isSome && b.isSome
+  | .ifaceNil, _ => true
+  | .num _, _ => true
+  | .pair _ _, _ => true
+  | .str _, _ => true
+  | .ref _, _ => true
+def reflArr (s : St) : List Val → Nat → Bool
+  | a :: as, t => reflOK s a t && reflArr s as t
+  | [], _ => true
+def reflStruct (s : St) : List Val → List Nat → Bool
+  | a :: as, t :: ts => reflOK s a t && reflStruct s as ts
+  | _, _ => true
+end
+
+theorem valEqual_refl_iff (s : St) : ∀ (a b : Val) (t : Nat), a = b → (valEqual s a b t = .tt ↔ reflOK s a t = true) := by
+  apply valEqual.induct s (motive_1 := fun a b t => a = b → (valEqual s a b t = .tt ↔ reflOK s a t = true))
+    (motive_2 := fun as bs ts => as = bs → (listEqualStruct s as bs ts = .tt ↔ reflStruct s as ts = true))
+    (motive_3 := fun as bs t => as = bs → (listEqualArr s as bs t = .tt ↔ reflArr s as t = true))
+  all_goals (intros; simp_all +zetaDelta [valEqual, listEqualStruct, listEqualArr, reflOK, reflArr, reflStruct, EqRes.ofBool])
+  case case10 => rename_i b _ _; cases b <;> simp
+  case case11 => rename_i d _ _; intro _; cases d <;> simp
+  case case14 => rename_i x _ _ _ _ _ _ _ _ _ _ _; cases x <;> simp_all
+  case case17 =>
+    rename_i l ts h1 h2
+    cases l <;> cases ts
+    · simp [listEqualStruct, reflStruct]
+    · simp [listEqualStruct, reflStruct]
+    · simp [listEqualStruct, reflStruct]
+    · exact absurd rfl (h1 _ _ _ _ _ _ rfl rfl rfl)
+  case case20 =>
+    rename_i l t h1 h2
+    cases l
+    · simp [listEqualArr, reflArr]
+    · exact absurd rfl (h1 _ _)
+
+/-- **`ifaceEq_refl_iff`**: comparing an interface value with itself is `true` exactly when its dynamic value is of a
+    comparable type (at every interface-typed component, recursively) and contains no NaN — otherwise it is `false` (NaN) or
+    the "comparing uncomparable type" panic, never `true`. -/
+theorem ifaceEq_refl_iff (s : St) (a : Val) : ifaceEqual s a a = .tt ↔ reflOK s a 0 = true :=
+  valEqual_refl_iff s a a 0 rfl
+
+/-- the same statement with the box opened: `x == x` for `x` holding `v` of dynamic type `t` -/
+theorem ifaceEq_refl_boxed (s : St) (t : Nat) (v : Val) :
+    ifaceEqual s (.iface t v) (.iface t v) = .tt ↔ (comparableM s (s.size + 1) t = true ∧ reflOK s v t = true) := by
+  rw [ifaceEq_refl_iff]; simp [reflOK]
+
+/-- a boxed interface value as the run time has it: an object identity, a dynamic type, a value -/
+structure Boxed where
+  id : Nat
+  typ : Nat
+  v : Val
+
+/-- `$interfaceIsEqual` on boxed values (prelude.js:566-581): the object identities are not consulted -/
+def ifaceEqualBoxed (s : St) (a b : Boxed) : EqRes := ifaceEqual s (.iface a.typ a.v) (.iface b.typ b.v)
+
+/-- **`ifaceEq_identity_irrelevant`**: the verdict depends on (dynamic type, value) only — two boxings of the same value
+    behave exactly like one box compared with itself, whatever the object identities are -/
+theorem ifaceEq_identity_irrelevant (s : St) (a b a' b' : Boxed)
+    (ha : a.typ = a'.typ ∧ a.v = a'.v) (hb : b.typ = b'.typ ∧ b.v = b'.v) :
+    ifaceEqualBoxed s a b = ifaceEqualBoxed s a' b' := by
+  unfold ifaceEqualBoxed; rw [ha.1, ha.2, hb.1, hb.2]
+
+/-- why the tie probes `$interfaceIsEqual(x, x)` with ONE object: an identity fast path (`if (a === b) return true`) is not
+    identity-irrelevant — a boxed NaN equals itself under it, and an uncomparable value no longer panics -/
+def ifaceEqualFastPath (s : St) (a b : Boxed) : EqRes := if a.id = b.id then .tt else ifaceEqualBoxed s a b
+
+theorem identity_fast_path_is_wrong :
+    ifaceEqualFastPath init ⟨1, 13, .flt none⟩ ⟨1, 13, .flt none⟩ ≠ ifaceEqualBoxed init ⟨1, 13, .flt none⟩ ⟨2, 13, .flt none⟩ ∧
+    ifaceEqualBoxed init ⟨1, 13, .flt none⟩ ⟨1, 13, .flt none⟩ = .ff ∧
+    ifaceEqualBoxed (canon init (.slice 1)).1 ⟨1, 21, .ref 0⟩ ⟨1, 21, .ref 0⟩ = .panic := by decide
+
+example : reflOK init (.iface 13 (.flt (some 1))) 0 = true ∧ reflOK init (.iface 13 (.flt none)) 0 = false := by decide
+
+end IfaceRefl
+
 end GV.Props.C09
